@@ -456,8 +456,9 @@ struct RunCfg {
 	/// thread counts of the concurrent runs made on this tree (one fresh subject chain each)
 	threads: Vec<usize>,
 	long: bool,
-	/// include `get_kernel_height` among the concurrent readers (known finding: it can spin for ever
-	/// holding header_pmmr.read() when a reorg shrinks the kernel MMR between its two steps)
+	/// bias the readers towards `get_kernel_height` (a third of their ops): the op that, before the
+	/// fix in /repo (get_header_for_kernel_index looping for ever under header_pmmr.read() when a reorg
+	/// shrank the kernel MMR between its two steps), wedged the chain; it is in every mix anyway
 	kernel_height: bool,
 }
 
@@ -637,7 +638,7 @@ fn run(out: &mut Out, rng: &mut Rng, work: &str, cfg: &RunCfg, stats: &mut BTree
 				4 | 5 => Op::GetUnspent(rng.below(sc.commits.len() as u64) as usize),
 				6 => Op::HeaderByHeight(rng.below(sc.max_height + 2)),
 				7 => Op::HeaderForOutput(rng.below(sc.commits.len() as u64) as usize),
-				8 if with_kh => Op::KernelHeight(rng.below(sc.kernels.len() as u64) as usize),
+				8 => Op::KernelHeight(rng.below(sc.kernels.len() as u64) as usize),
 				9 | 10 if !sc.txs.is_empty() => Op::ValidateTx(rng.below(sc.txs.len() as u64) as usize),
 				_ => Op::ReadHead,
 			}
@@ -790,7 +791,7 @@ fn run(out: &mut Out, rng: &mut Rng, work: &str, cfg: &RunCfg, stats: &mut BTree
 						})
 						.collect();
 					let kh = inflight.iter().any(|x| x.contains("KernelHeight"));
-					let head = if kh && cfg.kernel_height { "#KNOWN-PROBE C17 get_kernel_height raced with a reorg and spins in get_header_for_kernel_index holding header_pmmr.read():" } else { "#ORACLE-FAIL C17" };
+					let head = "#ORACLE-FAIL C17";
 					out.raw(&format!(
 						"{} deadlock-or-hang run={} seed={} threads={} no op completed for {:?}: ops in flight [{}]",
 						head,
@@ -986,13 +987,13 @@ fn selftest(out: &mut Out, work: &str) {
 	std::process::exit(0);
 }
 
-/// Deterministic exhibit of the finding behind the hangs the random runs hit when
-/// `get_kernel_height` is in the mix: `Chain::get_header_for_kernel_index(i, None, None)` with `i`
-/// greater than the kernel MMR size of the current head (which is what `get_kernel_height` passes
-/// when a reorg to a chain with fewer kernels commits between its `find_kernel` under
-/// `txhashset.read()` and this call) never returns and keeps `header_pmmr.read()`; from then on
-/// every writer (`process_block_header` …) and, behind the parked writer, every new reader of
-/// `header_pmmr` blocks for ever.
+/// Regression probe for a defect this harness found and /repo repaired (`fix:` commit
+/// "get_header_for_kernel_index returns TxKernelNotFound instead of looping forever"):
+/// `Chain::get_header_for_kernel_index(i, None, None)` with `i` beyond the kernel MMR of the head
+/// (what `get_kernel_height` passes when a reorg to a chain with fewer kernels commits between
+/// its `find_kernel` under `txhashset.read()` and the header search) used to loop for ever holding
+/// `header_pmmr.read()`, blocking every writer and, behind the parked writer, every new reader.
+/// The calls are made under a watchdog; not returning is an oracle failure.
 fn probe(out: &mut Out, work: &str) {
 	let mut kit = Kit::new(&format!("{}/pb_builder", work));
 	let mut tip = 0;
@@ -1007,58 +1008,69 @@ fn probe(out: &mut Out, work: &str) {
 		chain.process_block(kit.blks[id].block.clone(), Options::SKIP_POW).unwrap();
 	}
 	let hh = chain.head_header().unwrap();
-	// control: an index inside the kernel MMR returns
-	let ctl = chain.get_header_for_kernel_index(hh.kernel_mmr_size, None, None).map(|h| h.height);
-	out.raw(&format!("#STAT probe:control get_header_for_kernel_index({})={:?}", hh.kernel_mmr_size, ctl));
-	let beyond = hh.kernel_mmr_size + 1;
-	let (txc, rxc) = mpsc::channel::<&'static str>();
-	{
-		let chain = chain.clone();
-		let txc = txc.clone();
+	let size = hh.kernel_mmr_size;
+	// (index, min_height, max_height): inside, at the end, beyond by 1 / far beyond, with explicit bounds
+	let cases: Vec<(u64, Option<u64>, Option<u64>)> = vec![
+		(size, None, None),
+		(1, None, None),
+		(size + 1, None, None),
+		(size + 1000, None, None),
+		(u64::MAX, None, None),
+		(size + 1, Some(1), Some(hh.height)),
+		(size + 1, Some(hh.height), Some(hh.height)),
+		(0, None, None),
+		(1, Some(3), Some(4)),
+	];
+	let mut hung = false;
+	for (idx, mn, mx) in cases {
+		let (txc, rxc) = mpsc::channel::<String>();
+		let c2 = chain.clone();
 		std::thread::spawn(move || {
 			setup_globals();
-			let _ = chain.get_header_for_kernel_index(beyond, None, None);
-			let _ = txc.send("lookup");
+			let r = std::panic::catch_unwind(AssertUnwindSafe(|| c2.get_header_for_kernel_index(idx, mn, mx)));
+			let _ = txc.send(match r {
+				Ok(Ok(h)) => format!("ok:h{}", h.height),
+				Ok(Err(e)) => format!("err:{}", error_class(&e)),
+				Err(_) => "panic".to_string(),
+			});
 		});
+		match rxc.recv_timeout(Duration::from_secs(5)) {
+			Ok(r) => {
+				if r == "panic" {
+					out.raw(&format!("#ORACLE-FAIL C17 get_header_for_kernel_index({}, {:?}, {:?}) panicked (kernel MMR size {}, head height {})", idx, mn, mx, size, hh.height));
+				}
+				out.raw(&format!("#STAT probe:get_header_for_kernel_index({},{:?},{:?}) size={} -> {}", idx, mn, mx, size, r));
+			}
+			Err(_) => {
+				hung = true;
+				out.raw(&format!(
+					"#ORACLE-FAIL C17 get_header_for_kernel_index({}, {:?}, {:?}) with kernel MMR size {} at head height {} never returns (5 s) and holds header_pmmr.read()",
+					idx, mn, mx, size, hh.height
+				));
+				break;
+			}
+		}
 	}
-	std::thread::sleep(Duration::from_millis(300));
+	// the chain must still accept a writer and a reader afterwards
+	let (txc, rxc) = mpsc::channel::<&'static str>();
 	{
-		let chain = chain.clone();
+		let c2 = chain.clone();
 		let txc = txc.clone();
 		let hdr = kit.blks[extra].block.header.clone();
 		std::thread::spawn(move || {
 			setup_globals();
-			let _ = chain.process_block_header(&hdr, Options::SKIP_POW);
-			let _ = txc.send("writer");
-		});
-	}
-	std::thread::sleep(Duration::from_millis(300));
-	{
-		let chain = chain.clone();
-		let txc = txc.clone();
-		std::thread::spawn(move || {
-			setup_globals();
-			let _ = chain.get_header_by_height(0);
-			let _ = txc.send("reader");
+			let _ = c2.process_block_header(&hdr, Options::SKIP_POW);
+			let _ = c2.get_header_by_height(0);
+			let _ = txc.send("after");
 		});
 	}
 	drop(txc);
-	let t0 = Instant::now();
-	let mut done: Vec<&str> = vec![];
-	while t0.elapsed() < Duration::from_secs(4) {
-		if let Ok(x) = rxc.recv_timeout(Duration::from_millis(200)) {
-			done.push(x);
-		}
-	}
-	if done.is_empty() {
-		out.raw(&format!(
-			"#KNOWN-PROBE C17 get_header_for_kernel_index({}, None, None) with kernel MMR size {} at head height {} never returns and holds header_pmmr.read(): a following process_block_header and, behind it, get_header_by_height(0) are blocked (none of the three returned within 4 s)",
-			beyond, hh.kernel_mmr_size, hh.height
-		));
-		out.raw("#STAT probe:get_header_for_kernel_index-beyond-mmr=spins-holding-header_pmmr.read;writer-blocked;reader-blocked");
+	if rxc.recv_timeout(Duration::from_secs(5)).is_err() {
+		out.raw(&format!("#ORACLE-FAIL C17 after get_header_for_kernel_index probes (hung={}) a following process_block_header / get_header_by_height(0) does not return: chain wedged", hung));
 	} else {
-		out.raw(&format!("#STAT probe:get_header_for_kernel_index-beyond-mmr=returned:{:?}", done));
+		out.raw("#STAT probe:writer-and-reader-after-probes=returned");
 	}
+	out.line("conc opclass get_header_for_kernel_index", "read-hp");
 	out.flush();
 	std::process::exit(0);
 }
@@ -1115,8 +1127,8 @@ fn main() {
 	let mut cfgs = vec![];
 	match mode {
 		"race" => {
-			// hunt for the get_kernel_height / reorg race (known finding); a hang observed here with
-			// get_kernel_height in flight is reported as #KNOWN-PROBE, anything else as #ORACLE-FAIL
+			// readers biased towards get_kernel_height racing with reorgs (regression hunt for the
+			// fixed get_header_for_kernel_index spin); any hang is an #ORACLE-FAIL
 			let k = if thorough { 6 } else { 2 };
 			for i in 0..k {
 				cfgs.push(RunCfg { run: 200 + i, threads: vec![8, 6, 8, 7, 8, 5, 8, 8], long: false, kernel_height: true });
